@@ -24,6 +24,7 @@ class Contract:
     returns = None          # type descriptor of the result (for modular calls)
     yields = None           # element type descriptor when the function is a generator
     raises_modifies = {}    # exception class name -> modifies list for that exceptional exit (default: `modifies`)
+    locals_order = None     # first-binding order of parameters and locals when the contract was written (for pure renames)
 
     def setup(self, ex):
         """Build the symbolic pre-state; return {param: V}."""
@@ -199,6 +200,11 @@ class World:
             reset_names()
             ex = Ex(self, prefix)
             ex.contract = c
+            if c.locals_order:
+                from vf.pyvc.interp import binding_order
+                actual = binding_order(node)
+                if actual != list(c.locals_order) and len(actual) == len(c.locals_order):
+                    ex.rename_map = {a: b for a, b in zip(c.locals_order, actual) if a != b}
             try:
                 self.run_path(ex, c, f, stats)
             except PathEnd:
